@@ -85,10 +85,14 @@ def verbWire (fields : List Sexp) : String :=
   match bytesField "bytes" fields with
   | none => "bad-case"
   | some bs =>
+    -- `(base xHEX…)`: the table the caller supplied with WithSymbols / Unmarshaler.Symbols
+    let base : SymTable := match field "base" fields with
+      | some l => l.filterMap fun x => match x with | .atom h => decodeHex h | _ => none
+      | none => []
     match unmarshal bs with
     | .error r => encReject r
     | .ok p =>
-      match resolveBlocks [] p.blocks with
+      match resolveBlocks base p.blocks with
       | none => "unresolvable"
       | some contents =>
         let e := p.envelope
@@ -97,7 +101,7 @@ def verbWire (fields : List Sexp) : String :=
         let revs := ",".intercalate ((revocationIds e).map encodeHex)
         let blocks := spaced (contents.map fun c =>
           "(" ++ encBlockSx c.block ++ " (context " ++ encodeHex c.context ++ "))")
-        let reBlocks := (buildBlockMsgs [] contents).map Wire.encodeBlock
+        let reBlocks := (buildBlockMsgs base contents).map Wire.encodeBlock
         -- symbol indexes depend on the order of the builder calls; only when the caller
         -- added facts, then rules, then checks can the block bytes be reproduced
         let reenc := if (field "interleaved" fields).isSome then "n/a"
